@@ -181,7 +181,7 @@ pub fn run(sink: &mut Sink, rng: &mut Rng, thorough: bool) {
       let i = pick_idx(rng, &known);
       let nd = rng.below(8) as u8;
       (format!("store degrade {} {}", i, nd), guarded(AssertUnwindSafe(|| idx_ans(store.degrade(i, nd)))))
-    } else if choice < 92 {
+    } else if choice < 89 {
       let (i, j) = (pick_idx(rng, &known), pick_idx(rng, &known));
       let which = rng.below(4);
       let name = ["and", "or", "xor", "minus"][which as usize];
@@ -194,9 +194,50 @@ pub fn run(sink: &mut Sink, rng: &mut Rng, thorough: bool) {
         })
       }));
       (format!("store {} {} {}", name, i, j), r)
+    } else if choice >= 96 {
+      // export + re-import: FITS (generic loader, or the loader of ONE kind — possibly not the MOC's),
+      // ASCII and JSON through the loader of the MOC's own kind
+      let i = pick_idx(rng, &known);
+      let kind = match store.get_qty_type(i) { Ok(MocQType::Space) => Some(0u64), Ok(MocQType::Time) => Some(1), Ok(MocQType::Frequency) => Some(2), _ => None };
+      let _ = take_trace();
+      match rng.below(4) {
+        0 => {
+          let r = guarded(AssertUnwindSafe(|| match store.to_fits_buff(i, None) { Ok(b) => idx_ans(store.load_from_fits_buff(&b)), Err(e) => err_class(&e).to_string() }));
+          (format!("store reimp {}", i), r)
+        }
+        1 => {
+          let k = rng.below(3);
+          let r = guarded(AssertUnwindSafe(|| match store.to_fits_buff(i, None) {
+            Ok(b) => match (match k { 0 => store.load_smoc_from_fits_buff(&b), 1 => store.load_tmoc_from_fits_buff(&b), _ => store.load_fmoc_from_fits_buff(&b) }) { Ok(j) => format!("idx {}", j), Err(_) => "err-other".to_string() },
+            Err(e) => err_class(&e).to_string(),
+          }));
+          (format!("store reimpk {} {}", k, i), r)
+        }
+        w => {
+          let fold = if rng.chance(1, 2) { Some(30usize) } else { None };
+          let r = guarded(AssertUnwindSafe(|| {
+            let txt = if w == 2 { store.to_ascii_str(i, fold) } else { store.to_json_str(i, fold) };
+            match (txt, kind) {
+              (Ok(t), Some(k)) => idx_ans(match (w, k) {
+                (2, 0) => store.load_smoc_from_ascii(&t), (2, 1) => store.load_tmoc_from_ascii(&t), (2, _) => store.load_fmoc_from_ascii(&t),
+                (_, 0) => store.load_smoc_from_json(&t), (_, 1) => store.load_tmoc_from_json(&t), (_, _) => store.load_fmoc_from_json(&t),
+              }),
+              (Ok(_), None) => "err-other".to_string(),
+              (Err(e), _) => err_class(&e).to_string(),
+            }
+          }));
+          (format!("store reimp {}", i), r)
+        }
+      }
     } else {
       let n = rng.below(6) as usize;
-      let is: Vec<usize> = (0..n).map(|_| pick_idx(rng, &known)).collect();
+      let mut is: Vec<usize> = (0..n).map(|_| pick_idx(rng, &known)).collect();
+      // 1 list out of 3: one index appears twice (an even number of occurrences matters for the xor)
+      if !is.is_empty() && rng.chance(1, 3) {
+        let d = is[rng.below(is.len() as u64) as usize];
+        is.push(d);
+        sink.count("multi:duplicate-index");
+      }
       let which = rng.below(3);
       let name = ["mand", "mor", "mxor"][which as usize];
       let r = guarded(AssertUnwindSafe(|| {
